@@ -398,12 +398,13 @@ func (m *locker) WithContext(src context.Context, name string) (context.Context,
 			return nil, nil, ErrLockerClosed
 		}
 		ctx, cancel := context.WithCancel(src)
-		if cancel, err := m.try(ctx, cancel, name, g, false); err == nil {
+		cancel, err := m.try(ctx, cancel, name, g, false)
+		if err == nil {
 			return ctx, cancel, nil
 		}
 		cancel()
 		var timeout <-chan time.Time
-		if m.nocsc {
+		if m.nocsc || !errors.Is(err, ErrNotLocked) { // an attempt that failed for another reason has not registered for the keys' invalidations
 			timeout = time.After(m.timeout)
 		}
 		select {
